@@ -2,12 +2,16 @@ use crate::engine::report::Report;
 use serde_json::Value;
 
 pub mod c01;
+pub mod c02;
+#[rustfmt::skip]
+pub mod c02_tuples;
 pub mod c04;
 pub mod c09;
 
 pub fn run(id: &str, rep: &mut Report) -> bool {
     match id {
         "C01" => c01::run(rep),
+        "C02" => c02::run(rep),
         "C04" => c04::run(rep),
         "C09" => c09::run(rep),
         _ => return false,
@@ -19,6 +23,7 @@ pub fn run(id: &str, rep: &mut Report) -> bool {
 pub fn replay(id: &str, case: &Value) -> Result<Vec<(String, String)>, String> {
     match id {
         "C01" => c01::replay(case),
+        "C02" => c02::replay(case),
         "C04" => c04::replay(case),
         "C09" => c09::replay(case),
         _ => Err(format!("no replay for {}", id)),
